@@ -138,6 +138,9 @@ def src_of(sid):
     prop, n = sid.split('-')[0], int(sid.split('-')[1])
     # waves 1-4: /tmp/wt/<prop>/_seeded/{1,2}; wave 5 (ids -3, -4): /tmp/w5/<prop>/_seeded/{1,2}
     # wave 6 (ids -5, -6, -7): /tmp/w6/<prop>/_seeded/{1,2,3}
+    # wave 7 (ids -8, -9, -10; six properties only): /tmp/w7/<prop>/_seeded/{1,2,3}
+    if n >= 8:
+        return "/tmp/w7/%s/_seeded/%d" % (prop, n - 7)
     if n >= 5:
         return "/tmp/w6/%s/_seeded/%d" % (prop, n - 4)
     return "/tmp/wt/%s/_seeded/%d" % (prop, n) if n <= 2 else "/tmp/w5/%s/_seeded/%d" % (prop, n - 2)
